@@ -109,12 +109,15 @@ type machine struct {
 	entries                  []refmux.Entry
 	foreignPending           int
 	resources                map[string]res.Resource
+	reqRes                   map[string]res.Resource // request objects kept by handlers, by resource id
 	prevCycle                *cycleState
 	serveRefused             bool
 }
 
 var allRIDs = []string{"svc.r.1", "svc.r.2", "svc.s.1", "svc.s.2", "svc.t.a.1", "svc.t.a.2", "svc.t.b.1", "svc.p.1", "svc.m.1", "svc.m.2", "svc.nosuch.1",
-	"svc.m.w.a.x", "svc.m.w.a.y.z", "svc.m.fixed", "svc.m.q.1", "svc.u.book.1", "svc.u.toy.1", "svc.m.a.b", "svc.m.c.b", "svc.r.1.deep"}
+	"svc.m.w.a.x", "svc.m.w.a.y.z", "svc.m.fixed", "svc.m.q.1", "svc.u.book.1", "svc.u.toy.1", "svc.m.a.b", "svc.m.c.b", "svc.r.1.deep",
+	// no handler: the service name glued to further characters
+	"svcx.r.1", "svc_r.1", "svc"}
 
 func (m *machine) viol(prop, format string, a ...interface{}) {
 	m.mu.Lock()
@@ -235,6 +238,13 @@ func (m *machine) handler(kind string) func(r *res.Request) {
 			return
 		}
 		m.body(sb, r, sb.qe())
+		// the request object is kept: a later WithResource may be given it
+		m.mu.Lock()
+		if m.reqRes == nil {
+			m.reqRes = map[string]res.Resource{}
+		}
+		m.reqRes[sb.RID] = r
+		m.mu.Unlock()
 		switch kind {
 		case "access":
 			r.AccessGranted()
@@ -282,7 +292,10 @@ func (m *machine) build() {
 	s.Handle("u.$itemType.$item", opts(res.Group("it.${item}"))...)
 	s.Handle("r.1.deep", opts()...)
 	s.Handle("$a.$b.$c", opts(res.Group("abc.${a}"))...)
+	// the resource named like the service (root pattern), default group
+	s.Handle("", opts()...)
 	m.entries = []refmux.Entry{
+		{Pattern: "svc", Marker: 11},
 		{Pattern: "svc.u.$itemType.$item", Marker: 8, Group: "it.${item}"},
 		{Pattern: "svc.r.1.deep", Marker: 9},
 		{Pattern: "svc.$a.$b.$c", Marker: 10, Group: "abc.${a}"},
@@ -465,6 +478,14 @@ func (m *machine) exec(op Op) {
 			r = rr
 			m.mu.Lock()
 			m.resources[op.RID] = r
+			m.mu.Unlock()
+		}
+		if op.Pick%2 == 1 {
+			// the request object a handler of this resource received earlier, if any
+			m.mu.Lock()
+			if rr := m.reqRes[op.RID]; rr != nil {
+				r = rr
+			}
 			m.mu.Unlock()
 		}
 		sb := m.newSub("withres", op.RID)
